@@ -387,6 +387,14 @@ func (w *YW) NewSyncer(opts ...hsync.Option) error {
 	return err
 }
 
+// StartSyncer starts the Syncer the way applications do: with a context that only bounds the
+// start and is cancelled as soon as Start has returned.
+func (w *YW) StartSyncer(limit time.Duration) error {
+	ctx, cancel := context.WithTimeout(context.Background(), limit)
+	defer cancel()
+	return w.Sy.Start(ctx)
+}
+
 // storedHeights reads the raw datastore: height index keys present.
 func (w *YW) storedHeights() map[uint64][]byte {
 	out := map[uint64][]byte{}
